@@ -1,4 +1,5 @@
 #![allow(dead_code)]
+mod automata;
 mod charsets;
 mod dump;
 mod loopranges;
@@ -60,6 +61,10 @@ fn main() {
         ("drive", "c08") => strings::drive_c08(&a),
         ("drive", "c09") => strings::drive_c09(&a),
         ("drive", "c17") => strings::drive_c17(&a),
+        ("replay", "builder") => automata::replay_builder(&a),
+        ("drive", "builder") => automata::drive_builder(&a),
+        ("replay", "dfa") => automata::replay_dfa(&a),
+        ("drive", "automata") => automata::drive_automata(&a),
         ("drive", "c01") => regex::drive_c01(&a),
         ("drive", "c02") => regex::drive_c02(&a),
         ("drive", "c03") => regex::drive_c03(&a),
